@@ -213,26 +213,6 @@ handle_type redirect_destroy(handle_type child, REPROC_REDIRECT type)
   ENS("C14/redirect_destroy.nothing_else", g.child_pid == OLD(g.child_pid) && g.child_reaped == OLD(g.child_reaped) && g.child_live == OLD(g.child_live) && g.nsig == OLD(g.nsig) && g.reaps == OLD(g.reaps) && g.sigmask == OLD(g.sigmask) && g.now == OLD(g.now))
   ;
 
-/* --------------------------------- strv.c -------------------------------- */
-
-/* As seen by process_start: NULL with ENOMEM, or a fresh vector recorded as
-   "a followed by b" (its contents are decided in strv_concat's own harness). */
-CONTRACT(strv_concat)
-char **strv_concat(char *const *a, const char *const *b)
-  ASSIGNS(g)
-  ENS("C03/strv_concat.result_recorded", IMPLIES(RV != NULL, __CPROVER_is_fresh(RV, sizeof(char *)) && g.env_ptr == RV && g.env_a == a && g.env_b == b))
-  ENS("C04/strv_concat.null_is_enomem", IMPLIES(RV == NULL, g.faults > OLD(g.faults) && g.err == ENOMEM && IMPLIES(OLD(g.faults) == 0, g.first_errno == ENOMEM)))
-  ENS("C05/strv_concat.only_memory", g.open == OLD(g.open) && g.lib == OLD(g.lib) && g.cloexec == OLD(g.cloexec) && g.nonblock == OLD(g.nonblock) && g.sigmask == OLD(g.sigmask) && g.child_pid == OLD(g.child_pid) && g.child_live == OLD(g.child_live) && g.fork_stage == OLD(g.fork_stage) && g.nsig == OLD(g.nsig) && g.cwd_id == OLD(g.cwd_id) && g.in_child == OLD(g.in_child) && g.dup_ptr == OLD(g.dup_ptr) && g.dup_src == OLD(g.dup_src) && g.prep_ptr == OLD(g.prep_ptr) && g.prep_src == OLD(g.prep_src) && g.disp_default == OLD(g.disp_default) && g.reaps == OLD(g.reaps) && g.child_reaped == OLD(g.child_reaped))
-  ;
-
-CONTRACT(strv_free)
-char **strv_free(char **l)
-  ASSIGNS()
-  FREES(l)
-  ENS("C05/strv_free.returns_null", RV == NULL)
-  ENS("C05/strv_free.vector_released", IMPLIES(l != NULL, __CPROVER_was_freed(l)))
-  ;
-
 /* ------------------------------ process.posix.c --------------------------- */
 
 CONTRACT(process_wait)
@@ -278,6 +258,8 @@ int process_kill(pid_t process)
    side: everything the started program is promised is asserted by the execvp
    contract of the OS layer (labels C03/exec.*, C10/exec.*, C11/exec.*,
    C12/exec.*); failures are reported through the error pipe (C04/child.*). */
+#define GHOST_SANE (g.err >= 0 && g.err < 134 && g.first_errno >= 0 && g.first_errno < 134 && g.faults >= 0 && g.faults <= 1000 && g.child_fate_errno >= 0 && g.child_fate_errno < 134 && g.nsig >= 0 && g.kill_calls >= 0)
+
 CONTRACT(process_start)
 int process_start(pid_t *process, const char *const *argv, struct process_options options)
   REQ_(process != NULL && !g.in_child && g.fork_stage == 0 && g.child_pid == 0 && !g.child_live)
@@ -295,7 +277,7 @@ int process_start(pid_t *process, const char *const *argv, struct process_option
   ENS("C04/process_start.child_returns_only_in_fork_mode", IMPLIES(g.in_child, RV == 0 && argv == NULL && !g.execd && g.child_reports == 0))
   ENS("C10/process_start.fork_mode_child_streams", IMPLIES(g.in_child, IS_OPEN(0) && IS_OPEN(1) && IS_OPEN(2) && g.obj[0] == gc.want_obj[0] && g.obj[1] == gc.want_obj[1] && g.obj[2] == gc.want_obj[2]))
   ENS("C12/process_start.fork_mode_child_clean_signal_state", IMPLIES(g.in_child, g.sigmask == 0 && DISP_ALL_DEFAULT_PUB))
-  ENS("C03/process_start.fork_mode_child_cwd_and_env", IMPLIES(g.in_child, g.cwd_id == gc.want_cwd_id && environ == g.env_ptr && g.env_a == gc.want_env_a && g.env_b == gc.want_env_b))
+  ENS("C03/process_start.fork_mode_child_cwd", IMPLIES(g.in_child, g.cwd_id == gc.want_cwd_id))
   ;
 
 #endif
